@@ -169,6 +169,8 @@ func (o *coreOracle) OnWrite(s *Sim, w *Write) {
 	switch {
 	case w.Actor == "br-ctrl" && isWorkloadGK(w.Key) && w.New != nil:
 		o.checkExposure(s, w)
+	case w.Actor == "user" && isWorkloadGK(w.Key) && w.New != nil && w.Old != nil:
+		o.checkScaleExposure(s, w)
 	case w.Key.GK == gkRollout && w.New != nil && w.Old != nil && w.Actor == "rollout-ctrl":
 		o.checkRolloutStatus(s, w)
 	case w.Key.GK == gkBR && w.New != nil:
@@ -234,6 +236,33 @@ func (o *coreOracle) checkExposure(s *Sim, w *Write) {
 	if claimed && br.Status.Phase == v1beta1.RolloutPhaseProgressing && eAfter < eBefore {
 		s.Violate("C01", "E2-monotone", fmt.Sprintf("E2/%s/%s", o.sc.Family, w.Key.GK.Kind), w.Seq,
 			"BatchRelease controller moved %s back toward the old revision while progressing: exposure %d -> %d", w.Key, eBefore, eAfter)
+	}
+}
+
+// E4: when the workload is scaled mid-release the bound holds for percentage steps relative to the new size,
+// at once: the update knob the controllers left on the workload must itself scale with it.
+func (o *coreOracle) checkScaleExposure(s *Sim, w *Write) {
+	eB, nB, ok1 := s.exposure(w.Old)
+	eA, nA, ok2 := s.exposure(w.New)
+	if !ok1 || !ok2 || nA <= nB || controlledByUID(w.New) == "" {
+		return
+	}
+	br, _ := s.Store.Peek(ObjKey{GK: gkBR, NS: o.sc.NS, Name: o.sc.Name + "-ro"}).(*v1beta1.BatchRelease)
+	if br == nil || br.Spec.ReleasePlan.BatchPartition == nil || br.Status.Phase != v1beta1.RolloutPhaseProgressing || br.DeletionTimestamp != nil || string(br.UID) != controlledByUID(w.New) {
+		return
+	}
+	plan := br.Spec.ReleasePlan
+	b := int(br.Status.CanaryStatus.CurrentBatch)
+	if b >= len(plan.Batches) || plan.Batches[b].CanaryReplicas.Type != intstr.String || br.Status.CanaryStatus.NoNeedUpdateReplicas != nil {
+		return
+	}
+	if eB > planned(plan.Batches[b].CanaryReplicas, nB)+slack(nB) {
+		return // was not within the step before the scale either (e.g. still being upgraded): not attributable to scaling
+	}
+	s.probe("c01.scale-writes")
+	if allow := planned(plan.Batches[b].CanaryReplicas, nA) + slack(nA); eA > allow {
+		s.Violate("C01", "E4-scale", fmt.Sprintf("E4/%s/excess=%d", o.sc.Family, min(eA-allow, 2)), w.Seq, "scaling %s from %d to %d replicas lets %d pods update while the current step %s allows %d of %d: the update setting left by the controllers does not scale with the workload",
+			w.Key, nB, nA, eA, plan.Batches[b].CanaryReplicas.String(), allow, nA)
 	}
 }
 
